@@ -973,18 +973,21 @@ func (a *Authenticator) validateTokenAndDeriveKeys(authData *TokenAuthData, nego
 		return fmt.Errorf("token validation failed: %w", err)
 	}
 
-	// Extract subject from claims
-	if sub, ok := claims["sub"]; ok {
-		if subStr, ok := sub.(string); ok {
-			authData.ClientID = subStr
-		} else {
-			return fmt.Errorf("JWT subject claim is not a string")
-		}
-	}
-
-	if authData.ClientID == "" {
+	// The identity is the subject INSIDE the token, never the id the client
+	// claimed in step 1: a token without a (string, non-empty) subject
+	// authenticates nobody.
+	sub, ok := claims["sub"]
+	if !ok {
 		return fmt.Errorf("JWT token missing required subject (sub) claim")
 	}
+	subStr, ok := sub.(string)
+	if !ok {
+		return fmt.Errorf("JWT subject claim is not a string")
+	}
+	if subStr == "" {
+		return fmt.Errorf("JWT token missing required subject (sub) claim")
+	}
+	authData.ClientID = subStr
 
 	// For AKEP2 protocol, we need to derive the signature from the signing key and token
 	// This simulates HTCondor's token signature computation
